@@ -50,10 +50,23 @@ def mk_judge(alen, nops):
                 return "work not linear in the bytes present: %d source requests for %d archive bytes, %d calls" % (cnt["reads"], alen, nops)
             if cnt["moved"] > alen:
                 return "pulled %d bytes from a %d byte source" % (cnt["moved"], alen)
+        if cnt.get("fresh", 0) > 2 * MIB * nops + 64 * alen + 4 * MIB:
+            return ("work not linear in the bytes present: %d bytes obtained by malloc/calloc for %d archive bytes and %d calls (a block "
+                    "re-allocated and copied as a whole every time it grows?)" % (cnt["fresh"], alen, nops))
         if cnt.get("peak", 0) > 8 * MIB + 2 * alen:
             return "peak heap %d bytes exceeds 8 MiB + 2*|A| (|A| = %d)" % (cnt["peak"], alen)
         return None
     return j
+
+
+def long_chain(r):
+    """level-1 with a VERY long chain of tiny extended headers (tens of thousands): the header grows once per extended header, so
+    anything that handles the whole header per extension is quadratic"""
+    f = G.rand_fields(r, level=1)
+    f.exts = [(r.choice([0x7f, 0x7e, 0x3f]), b"")] * r.choice([12000, 16000])
+    f.common_crc = False
+    f.clen = r.choice([0, 10])
+    return E.encode(f) + S.rand_bytes(r, 20)
 
 
 def extreme_archive(r):
@@ -76,6 +89,8 @@ def extreme_archive(r):
         hb[7:11] = r.choice([0, 1, max(0, chain - 1), chain // 2]).to_bytes(4, "little")
         hb[1] = sum(hb[2:2 + hb[0]]) & 0xff
         return bytes(hb) * r.choice([1, 1, 3]) + S.rand_bytes(r, r.choice([0, 20]))
+    if k < 0.44:
+        return long_chain(r)
     if k < 0.5:      # level-1 with a long chain of extended headers
         f = G.rand_fields(r, level=1)
         f.exts = [(0x7e, S.rand_bytes(r, r.choice([0, 1, 200]))) for _ in range(r.choice([1, 10, 200]))]
@@ -103,8 +118,11 @@ def gen_cases(ctx, n):
     out = []
 
     def add(d, toks, kind, tag):
-        out.append(Case(A.rdr_op(kind, r.choice(A.POLICIES), toks, d), judge=mk_judge(len(d), len(toks)),
-                        tags={tag, "kind=" + kind}, note=tag))
+        tags = {tag, "kind=" + kind}
+        if tag == "extreme" and len(d) > 30000:
+            # tens of thousands of extended headers: the Lean model handles the chain as a list (quadratic): the C alone is judged
+            tags |= {"c-only", "very-long-chain"}
+        out.append(Case(A.rdr_op(kind, r.choice(A.POLICIES), toks, d), judge=mk_judge(len(d), len(toks)), tags=tags, note=tag))
     # every truncation of a few small archives, listing and decoding, all kinds
     for name, d in r.sample(smalls, min(len(smalls), 3 if ctx.tier == "quick" else 25)):
         step = max(1, len(d) // (60 if ctx.tier == "quick" else 400))
@@ -125,6 +143,8 @@ def gen_cases(ctx, n):
             out.append(Case(A.rdr_op(k_, r.choice(A.POLICIES), toks, d), judge=mk_judge(len(d) + 64, len(toks)), tags={"read-error", "c-only"},
                             note="extreme"))
     base = len(out)
+    for kind in A.KINDS:
+        add(long_chain(r), ["n", "n"], kind, "extreme")
     while len(out) < base + n:
         k = r.random()
         kind = r.choice(A.KINDS)
